@@ -244,14 +244,15 @@ Proof.
   apply Forall_app. split; [repeat constructor|]. apply Forall_app. split.
   - destruct api as [a|]; [|constructor]. constructor; [|constructor]. cbn [api_ok] in Ha.
     apply cl_app; [clt|]. destruct im; clt.
-  - assert (Hu : Forall cl match fns with
-                            | [] => []
-                            | _ :: _ => [[TId "unmock_with"; pc "="; TG Bracket (join [comma] (map unmock_entry fns))]]
-                            end).
-    { destruct fns as [|tf fns']; [constructor|]. constructor; [|constructor].
+  - assert (Hu : Forall (fun tf => cl (unmock_entry tf)) fns ->
+                 Forall cl match fns with
+                           | [] => []
+                           | _ :: _ => [[TId "unmock_with"; pc "="; TG Bracket (join [comma] (map unmock_entry fns))]]
+                           end).
+    { intros Hf'. destruct fns as [|tf fns']; [constructor|]. constructor; [|constructor].
       apply cl_TId; [reflexivity|]. apply cl_TP. apply cl_TG; [|exact cl_nil]. apply cl_join; [clt|].
-      apply Forall_map. destruct Hf as [->|Hf]; [|exact Hf]. discriminate. }
-    destruct im; try exact Hu. constructor.
+      apply Forall_map. exact Hf'. }
+    destruct im; try constructor; (destruct Hf as [E|Hf]; [discriminate E | exact (Hu Hf)]).
 Qed.
 
 Lemma unimock_params_cl api im fns :
@@ -497,4 +498,207 @@ Proof.
   apply Forall_app. split; [|rewrite Hfns; exact C1].
   unfold first_param_toks. rewrite Hgen. rewrite (detect_generic _ _ _ Hm) by discriminate.
   constructor; [apply impl_t_param_cl | constructor].
+Qed.
+
+(** ** trait mode *)
+Lemma print_arguments_cl b ps :
+  Forall (fun n => name_ok n = true) (map gp_name ps) -> cl (print_arguments b ps).
+Proof.
+  intros H. unfold print_arguments.
+  assert (HL : Forall cl ((if b then [[TId "EntraitT"]] else []) ++ map arg_of_param ps)).
+  { apply Forall_app. split; [destruct b; repeat constructor|].
+    induction ps as [|p ps IH]; cbn [map] in *; [constructor|]. inversion H; subst.
+    constructor; [|apply IH; assumption]. unfold arg_of_param. destruct (gp_kind p); clt. }
+  destruct ((if b then [[TId "EntraitT"]] else []) ++ map arg_of_param ps) as [|x L]; [exact cl_nil|].
+  apply cl_app; [clt|]. apply cl_app; [|clt]. apply cl_join; [clt | exact HL].
+Qed.
+
+Definition not_by_ref (a : trait_attr) : Prop := forall r, ta_delegate a <> Some (ByRef r).
+
+Lemma impl_t_bounds_cl a ca name tg :
+  not_by_ref a -> name_ok name = true -> Forall (fun n => name_ok n = true) (map gp_name (tg_params tg)) ->
+  (match ta_delegate a with Some (ByTrait d) => name_ok d | _ => true end) = true ->
+  cl (impl_t_bounds a ca name tg).
+Proof.
+  intros Hr Hn Hp Hd. unfold impl_t_bounds. apply cl_app; [clt|].
+  assert (Hdef : cl (([TId name] ++ print_arguments false (tg_params tg)) ++ plus_sync ++ (if ca then plus_static else []))).
+  { apply cl_app; [apply cl_TId; [exact Hn | apply print_arguments_cl; exact Hp]|]. destruct ca; clt. }
+  destruct (ta_impl_trait a) as [it|], (ta_delegate a) as [[|r|del]|] eqn:Ed; try exact Hdef; try (exfalso; exact (Hr r Ed)).
+  apply cl_TId; [exact Hd|]. clt.
+Qed.
+
+Lemma delegation_call_cl a ca name args :
+  not_by_ref a -> (match ta_impl_trait a with Some it => name_ok it | None => true end) = true ->
+  name_ok name = true -> Forall cl args -> cl (delegation_call a ca name args).
+Proof.
+  intros Hr Hit Hn Ha. unfold delegation_call.
+  assert (Hj : cl (join [comma] args)) by (apply cl_join; [clt | exact Ha]).
+  assert (Hdef : cl [TId "self"; pc "."; TId "as_ref"; TG Paren []; pc "."; TId name; TG Paren (join [comma] args)]).
+  { apply cl_TId; [reflexivity|]. apply cl_TP. apply cl_TId; [reflexivity|]. apply cl_TG; [exact cl_nil|]. apply cl_TP.
+    apply cl_TId; [exact Hn|]. apply cl_TG; [exact Hj | exact cl_nil]. }
+  destruct (ta_impl_trait a) as [it|], (ta_delegate a) as [[|r|del]|] eqn:Ed; try exact Hdef; try (exfalso; exact (Hr r Ed)).
+  apply cl_app; [clt|]. apply cl_app; [clt|]. apply cl_app; [|apply cl_app; [clt|]].
+  - apply cl_TId; [reflexivity|]. apply cl_TId; [reflexivity|]. apply cl_TId; [exact Hit|]. clt.
+  - apply cl_TId; [exact Hn|]. apply cl_TG; [|exact cl_nil]. apply cl_app; [clt | exact Hj].
+Qed.
+
+Lemma trait_call_args_names : forall l args,
+  trait_call_args l = Ok args -> args = map (fun n => [TId n]) (plain_names l).
+Proof.
+  induction l as [|a l IH]; intros args H; cbn [trait_call_args] in H.
+  - injection H as <-. reflexivity.
+  - destruct a as [x r m c|x [r m n sub|ts b] t]; [apply IH; exact H | | discriminate].
+    inv_ok H. injection H0 as <-. rewrite (IH _ E). reflexivity.
+Qed.
+
+Definition sig_names_ok (s : sig) : bool := name_ok (s_name s) && forallb name_ok (plain_names (p_items (s_inputs s))).
+
+(** the trait fns are the source trait's methods *)
+Lemma analyze_trait_items_sigs : forall l fns,
+  analyze_trait_items l = Ok fns ->
+  map (fun tf => (tf_attrs tf, tf_sig tf)) fns = flat_map (fun x => match x with TFn a s _ _ => [(a, s)] | _ => [] end) l.
+Proof.
+  induction l as [|x l IH]; intros fns H; cbn [analyze_trait_items] in H.
+  - injection H as <-. reflexivity.
+  - destruct x as [a s d semi|ts|ts]; [|apply IH; exact H | discriminate].
+    destruct (forallb is_pident (p_items (s_inputs s))); [|discriminate].
+    inv_ok H. injection H0 as <-. cbn [map flat_map app tf_attrs tf_sig]. rewrite (IH _ E). reflexivity.
+Qed.
+
+Lemma methods_cl a ca : forall fns methods,
+  not_by_ref a -> (match ta_impl_trait a with Some it => name_ok it | None => true end) = true ->
+  Forall2 (fun tf it => delegation_method a ca tf = Ok it) fns methods ->
+  forallb sig_names_ok (map tf_sig fns) = true ->
+  Forall cl (map (fun '(_, _, b) => b)
+                 (flat_map (fun x => match x with IIFn a _ s b => [(a, s, b)] | _ => [] end) methods)).
+Proof.
+  intros fns methods Hr Hit H. induction H as [|tf it fns methods Hh _ IH]; intros Hn; [constructor|].
+  cbn [map forallb] in Hn. apply andb_true_iff in Hn as [Hn1 Hn2].
+  unfold delegation_method in Hh. inv_ok Hh. injection Hh0 as <-. cbn [flat_map app map].
+  constructor; [|apply IH; exact Hn2].
+  unfold sig_names_ok in Hn1. apply andb_true_iff in Hn1 as [N1 N2].
+  apply cl_TG; [|exact cl_nil]. apply cl_app; [|destruct (tf_async tf); clt].
+  apply delegation_call_cl; try assumption. rewrite (trait_call_args_names _ _ E). apply cl_names, forallb_Forall. exact N2.
+Qed.
+
+Lemma Forall_filter {A} (P : A -> Prop) f l : Forall P l -> Forall P (filter f l).
+Proof. induction 1 as [|x l Hx _ IH]; cbn [filter]; [constructor|]. destruct (f x); [constructor|]; assumption. Qed.
+
+Lemma trait_mock_attrs_cl o subs lit v name tg colon supers fns :
+  (negb (unimock_value o) || api_ok (o_mock_api o)) = true ->
+  Forall cl (filter is_mock_attr lit) ->
+  Forall cl (filter is_mock_attr (t_attrs (gen_trait_def o TTrait MGeneric subs (Some lit) v name tg colon supers fns MRawTrait))).
+Proof.
+  intros Ha Hl.
+  change (t_attrs (gen_trait_def o TTrait MGeneric subs (Some lit) v name tg colon supers fns MRawTrait))
+    with ((if unimock_value o && negb (unimock_params_empty TTrait (o_mock_api o))
+           then [export_gated o (unimock_params (o_mock_api o) MRawTrait fns)] else []) ++
+          [] ++ (if mockall_value o then [export_gated o mockall_params] else []) ++ lit).
+  rewrite !filter_app. apply Forall_app. split; [|apply Forall_app; split; [constructor|apply Forall_app; split; [|exact Hl]]].
+  - apply Forall_filter. destruct (unimock_value o); [|constructor]. cbn [negb orb andb] in *.
+    destruct (negb (unimock_params_empty TTrait (o_mock_api o))); [|constructor].
+    constructor; [|constructor]. apply export_gated_cl, unimock_params_cl'; [exact Ha | left; reflexivity].
+  - apply Forall_filter. destruct (mockall_value o); [|constructor]. constructor; [|constructor]. apply export_gated_cl. clt.
+Qed.
+
+Lemma Forall2_refl {A} (R : A -> A -> Prop) : (forall x, R x x) -> forall l, Forall2 R l l.
+Proof. intros H. induction l; constructor; auto. Qed.
+
+Lemma c14_trait_case v attr h t items :
+  expand_items v attr (InTrait h t) = Ok items -> c14_side (mkCtx v attr (InTrait h t)) = true ->
+  good (view_C14 (mkCtx v attr (InTrait h t)) items).
+Proof.
+  intros H Hside. destruct (expand_trait_inv _ _ _ _ _ H) as (a0 & fns & deleg & methods & Ha & _ & Hf & Hd & Hm & ->).
+  cbv zeta in Hd, Hm.
+  unfold c14_side, trait_attr_of in Hside. cbn [x_input x_attr x_variant] in Hside. rewrite Ha in Hside.
+  fold (eff_trait_attr v a0) in Hside. set (a := eff_trait_attr v a0) in *.
+  match goal with |- context [[ITrait ?tr] ++ deleg ++ [IImpl ?im]] =>
+    destruct (parts_trait h t tr deleg im (delegation_trait_defs_shape _ _ _ _ _ _ Hd)) as (ds & Hp & _)
+  end.
+  unfold view_C14. cbn [x_input]. rewrite Hp.
+  unfold dynamic_requested, trait_attr_of. cbn [x_input x_attr x_variant]. rewrite Ha. fold (eff_trait_attr v a0). fold a.
+  destruct (contains_async_trait (h_attrs h)); [exact good_na|]. cbn [orb].
+  destruct (match ta_delegate a with Some (ByRef _) => true | _ => false end) eqn:Edyn; [exact good_na|].
+  assert (Hr : not_by_ref a) by (intros r E; rewrite E in Edyn; discriminate Edyn).
+  unfold c14_trait_side in Hside. fold a in Hside.
+  apply andb_true_iff in Hside as [Hside S7]. apply andb_true_iff in Hside as [Hside S6].
+  apply andb_true_iff in Hside as [Hside S5]. apply andb_true_iff in Hside as [Hside S4].
+  apply andb_true_iff in Hside as [Hside S3]. apply andb_true_iff in Hside as [S1 S2].
+  apply negb_true_iff, existsb_false_cl in S7.
+  pose proof (analyze_trait_items_sigs _ _ Hf) as Hsigs. fold (trait_sigs t) in Hsigs.
+  assert (Hts : map tf_sig fns = map snd (trait_sigs t)).
+  { rewrite <- Hsigs, map_map. reflexivity. }
+  cbn [generated_regions]. apply good_decided_cl.
+  apply Forall_app. split; [apply Forall_app; split; [|apply Forall_app; split]|].
+  - unfold first_param_toks, first_where_toks. cbn [i_gen i_self g_params g_where p_items p_of_list impl_params app where_of_list wp_toks mk_pred].
+    constructor; [apply impl_t_param_cl|]. constructor; [unfold cl; reflexivity|]. constructor; [|constructor].
+    apply impl_t_bounds_cl; try assumption. apply forallb_Forall. exact S2.
+  - unfold impl_fns. cbn [i_items]. apply (methods_cl a _ fns methods Hr S3 (map_res_ok _ _ _ Hm)).
+    rewrite Hts. clear -S5. induction (trait_sigs t) as [|[x s] l IH]; [reflexivity|].
+    cbn [forallb map snd] in *. apply andb_true_iff in S5 as [S51 S52]. unfold sig_names_ok. rewrite S51. apply IH. exact S52.
+  - apply trait_mock_attrs_cl; assumption.
+  - rewrite trait_sigs_outs, Hts. apply rewritten_cl. apply Forall2_refl. reflexivity.
+Qed.
+
+(** ** the view *)
+Lemma c14_view_partial v attr i items :
+  expand_items v attr i = Ok items -> c14_side (mkCtx v attr i) = true -> good (view_C14 (mkCtx v attr i) items).
+Proof.
+  intros H Hside. destruct i as [h s body|h|h t|h|h tp st body sigs sf|h|h name body sigs sf|h|]; try discriminate H.
+  - exact (c14_fn_case _ _ _ _ _ _ H Hside).
+  - exact (c14_trait_case _ _ _ _ _ H Hside).
+  - exact (c14_impl_case _ _ _ _ _ _ _ _ _ H Hside).
+  - exact (c14_mod_case _ _ _ _ _ _ _ _ H Hside).
+Qed.
+
+(** ** explicit statements *)
+(** the tokens that are the macro's own *)
+Lemma c14_own_tokens :
+  (forall bv, cl (print_gparam (impl_t_param bv))) /\ cl impl_path_toks /\ cl entrait_for_trait_attr /\
+  cl mockall_params /\ cl future_head /\ (forall o, cl (self_ty MGeneric INone o)).
+Proof.
+  split; [exact impl_t_param_cl|]. repeat split; try (unfold cl; reflexivity). exact self_ty_generic_cl.
+Qed.
+
+(** by-reference delegation is where [dyn] comes from *)
+Lemma impl_t_bounds_dyn a ca name tg r :
+  ta_delegate a = Some (ByRef r) -> mentions NB (impl_t_bounds a ca name tg) = true.
+Proof.
+  intros E. unfold impl_t_bounds. rewrite E. destruct (ta_impl_trait a), r; reflexivity.
+Qed.
+
+(** the unrestricted statement is false: [#[entrait(Foo)] fn foo(deps: &Box<App>) {}] — the scanned
+    regions contain the user's own concrete type (also: a function or parameter called [Box]) *)
+Definition c14_cex_input : input :=
+  InFn (mkHead [] [] false false)
+       (mkSig false false false None "foo" no_generics
+              (mkP [ArgTyped [] (PIdent false false "deps" [])
+                      (TyRef None false (TyPath false false 1 "Box" [TId "Box"; pc "<"; TId "App"; pc ">"]))] false)
+              None None)
+       [TG Brace []].
+
+Lemma c14_view_refuted :
+  exists v attr i items, expand_items v attr i = Ok items /\ ~ good (view_C14 (mkCtx v attr i) items).
+Proof.
+  exists VEntrait, [TId "Foo"], c14_cex_input.
+  destruct (expand_items VEntrait [TId "Foo"] c14_cex_input) as [items| | |] eqn:E; try (vm_compute in E; discriminate E).
+  exists items. split; [reflexivity|]. vm_compute in E. injection E as <-.
+  intros G. destruct (G eq_refl) as [_ G2]. vm_compute in G2. discriminate G2.
+Qed.
+
+(** [#[entrait(Foo)] fn Box(deps: &impl Bar) {}] — the delegating body is [{ Box(self) }] *)
+Definition c14_cex_input2 : input :=
+  InFn (mkHead [] [] false false)
+       (mkSig false false false None "Box" no_generics
+              (mkP [ArgTyped [] (PIdent false false "deps" []) (TyRef None false (TyImpl false [[TId "Bar"]]))] false)
+              None None)
+       [TG Brace []].
+
+Lemma c14_view_refuted2 :
+  exists items, expand_items VEntrait [TId "Foo"] c14_cex_input2 = Ok items /\
+                ~ good (view_C14 (mkCtx VEntrait [TId "Foo"] c14_cex_input2) items).
+Proof.
+  destruct (expand_items VEntrait [TId "Foo"] c14_cex_input2) as [items| | |] eqn:E; try (vm_compute in E; discriminate E).
+  exists items. split; [reflexivity|]. vm_compute in E. injection E as <-.
+  intros G. destruct (G eq_refl) as [_ G2]. vm_compute in G2. discriminate G2.
 Qed.
